@@ -65,8 +65,42 @@ Proof.
     + inversion P; subst. cbn [pd_mime pd_text pd_params]. repeat split; reflexivity.
 Qed.
 
-(* a request is dropped from the log only when capture is on and its form /
-   multipart body does not parse *)
+Lemma body_unparseable_b_iff : forall X m, body_unparseable_b X m = true <-> body_unparseable X m.
+Proof.
+  intros X m. unfold body_unparseable_b, body_unparseable.
+  destruct (media X (hget k_ct (q_hdrs m))) as [mt bnd].
+  destruct (beq mt mt_multipart) eqn:E1.
+  - apply beq_eq in E1. subst mt. destruct (mp_parse X bnd (q_body m)); split; intro H; try discriminate; auto.
+    + destruct H as [[_ H]|[H _]]; discriminate.
+  - destruct (beq mt mt_form) eqn:E2.
+    + apply beq_eq in E2. subst mt. destruct (form_parse X (q_body m)); split; intro H; try discriminate; auto.
+      destruct H as [[H _]|[_ H]]; discriminate.
+    + split; [discriminate|]. intros [[H _]|[H _]]; subst mt; rewrite beq_refl in *; discriminate.
+Qed.
+
+(* a request is missing from the log exactly when capture is on, it carries a
+   body, and that body is declared form / multipart and does not parse: for
+   ALL messages *)
+Theorem request_dropped_iff : forall X o m, law_dechunk X ->
+  (har_req X o m = Err <-> req_may_drop X (capture o (q_hdrs m)) m).
+Proof.
+  intros X o m L. unfold req_may_drop. rewrite <- body_unparseable_b_iff.
+  unfold har_req, post_data, has_framing, body_unparseable_b.
+  destruct ((q_cl m <=? 0)%Z && is_nil (q_te m))%bool; cbn [negb].
+  { split; [discriminate|intros [_ [H _]]; discriminate]. }
+  destruct (media X (hget k_ct (q_hdrs m))) as [mt bnd].
+  destruct (capture o (q_hdrs m)); cbn [negb].
+  2:{ split; [discriminate|intros [H _]; discriminate]. }
+  rewrite (snapshot_read_back X _ _ L).
+  destruct (beq mt mt_multipart).
+  - destruct (mp_parse X bnd (q_body m)); split; intro H; try discriminate; auto.
+    destruct H as [_ [_ H]]; discriminate.
+  - destruct (beq mt mt_form).
+    + destruct (form_parse X (q_body m)); split; intro H; try discriminate; auto.
+      destruct H as [_ [_ H]]; discriminate.
+    + split; [discriminate|intros [_ [_ H]]; discriminate].
+Qed.
+
 Theorem request_dropped_only_if_unparseable : forall X o m,
   law_dechunk X -> har_req X o m = Err ->
   capture o (q_hdrs m) = true /\
@@ -74,17 +108,8 @@ Theorem request_dropped_only_if_unparseable : forall X o m,
   (mt = mt_multipart /\ mp_parse X bnd (q_body m) = None) \/
   (mt = mt_form /\ form_parse X (q_body m) = None).
 Proof.
-  intros X o m L H. unfold har_req in H.
-  destruct (post_data X (capture o (q_hdrs m)) m) as [pd|] eqn:P; [discriminate|]. clear H.
-  unfold post_data in P.
-  destruct ((q_cl m <=? 0)%Z && is_nil (q_te m))%bool; [discriminate|].
-  destruct (media X (hget k_ct (q_hdrs m))) as [mt bnd].
-  destruct (capture o (q_hdrs m)); cbn [negb] in P; [|discriminate].
-  split; [reflexivity|]. rewrite (snapshot_read_back X _ _ L) in P.
-  destruct (beq mt mt_multipart) eqn:E1.
-  - apply beq_eq in E1. destruct (mp_parse X bnd (q_body m)); [discriminate|]. left. split; [exact E1|reflexivity].
-  - destruct (beq mt mt_form) eqn:E2; [|discriminate].
-    apply beq_eq in E2. destruct (form_parse X (q_body m)); [discriminate|]. right. split; [exact E2|reflexivity].
+  intros X o m L H. apply (request_dropped_iff X o m L) in H. destruct H as [C [_ U]].
+  split; [exact C|exact U].
 Qed.
 
 (* ------------------------------------------------------------ responses *)
@@ -341,8 +366,9 @@ Qed.
 Theorem c16_req_ok_iff : forall X cap m obs rt,
   c16_req_ok X cap m obs rt = true <-> req_spec X cap m obs rt.
 Proof.
-  intros X cap m [e|] rt; cbn; [|tauto].
-  rewrite !andb_true_iff, req_fields_ok_iff, post_ok_iff, (opt_eq_eq _ _ hreq_eq_ok). tauto.
+  intros X cap m [e|] rt; cbn.
+  - rewrite !andb_true_iff, req_fields_ok_iff, post_ok_iff, (opt_eq_eq _ _ hreq_eq_ok). tauto.
+  - unfold req_may_drop. rewrite !andb_true_iff, body_unparseable_b_iff. tauto.
 Qed.
 
 Lemma res_fields_ok_iff : forall m e, res_fields_ok m e = true <-> res_fields_spec m e.
@@ -375,7 +401,8 @@ Theorem request_entry_meets_property : forall X o m,
   req_spec X (capture o (q_hdrs m)) m (har_req X o m)
            (match har_req X o m with Ok e => roundtrip_req X e | Err => None end).
 Proof.
-  intros X o m LD LB LS WF ST. destruct (har_req X o m) as [e|] eqn:H; cbn; [|exact I].
+  intros X o m LD LB LS WF ST. destruct (har_req X o m) as [e|] eqn:H; cbn;
+    [|apply (request_dropped_iff X o m LD); exact H].
   split; [eapply req_fields_equal; eassumption|].
   split; [eapply postdata_is_origin_body; eassumption|].
   apply json_roundtrip_req; auto.
